@@ -611,9 +611,8 @@ func checkC19(r *mon.Run) {
 
 	// The rejecting decodes allocate an error with a stack trace each; with 16
 	// workers the default GC pacing makes the collector the bottleneck.
-	if os.Getenv("WIRE_GC_EXPERIMENT") == "" {
-		defer debug.SetGCPercent(debug.SetGCPercent(1600))
-	}
+	// (measured on 16 idle cores: phase A 37 s at GOGC=100, 8 s at 1600.)
+	defer debug.SetGCPercent(debug.SetGCPercent(1600))
 	// ---- phase A: the complete 2^26 space, RSV = 0 ----
 	t0 := time.Now() // reporting only, never part of a verdict
 	runTasks(r, 64*64, func(t int, a *acc) {
@@ -621,10 +620,6 @@ func checkC19(r *mon.Run) {
 	})
 	r.Extra("meta_headers_enumerated", 1<<26)
 	r.Extra("phase_a_wall_s", time.Since(t0).Seconds())
-	if os.Getenv("WIRE_C19_ONLY_A") != "" { // diagnostic
-		fmt.Println("phase A wall", time.Since(t0))
-		os.Exit(0)
-	}
 
 	// ---- phase A2: reserved bits toggled ----
 	rsvRounds := r.Pick(1, 8)
